@@ -17,7 +17,10 @@ correspond HM+X   every stage of RectClip64::Execute read through private access
                     side; at sample points outside the rectangle and farther than 2 from the path: output winding number 0 (parity
                     even for non-simple input);
                     polygons with every vertex in the closed rectangle returned unchanged, polygons missing the rectangle vanish;
-                    every output path of non-zero area has the orientation of the (simple) input;
+                    at the same inside sample points no output path winds against the orientation of the (simple) input [output paths whose
+                    signed area has the opposite sign but which contain no such point -- slivers produced by rounding intersection points
+                    to the grid -- are counted in the evidence (reversed_sliver_paths), not reported: the property quantifies over points
+                    farther than 2 units from the path];
                     every output vertex that is not an input vertex within 1 unit (Euclidean) of the rectangle's boundary.
 Failure modes (classifier keys):
   clip.crash / clip.exception      RectClip crashed, hung (timeout / 3 GiB address space limit) or threw
@@ -47,10 +50,11 @@ META = dict(
          'the same parity (self-intersecting, no edge along a side); nothing is covered outside; polygons inside are unchanged, polygons '
          'outside vanish, orientation is preserved, new vertices lie on the boundary (within 1)',
     note='theorems over the translated leaf functions (GetLocation partition, the Z/4 facts of HeadingClockwise/GetAdjacentLocation/'
-         'AreOpposites, GetSegmentIntersection against a rectangle side) and over a complete executable Coq model of RectClip64 (bounds '
-         'shortcuts, provenance of every emitted vertex incl. the refuted form for the stale ip2, corner loops) tied to the C++ by exact '
-         'equality of every intermediate stage read through private access; the winding-number clause is validated, not proved: a Coq-'
-         'verified sample checker decides it exactly at the sample points of every generated case',
+         'AreOpposites, GetIntersection names a side, GetSegmentIntersection against a rectangle side lands within one unit of it for '
+         '|coordinates| <= 2^25) and over a complete executable Coq model of RectClip64 (bounds shortcuts, provenance of every emitted '
+         'vertex incl. the refuted form for the stale ip2, corner loops) tied to the C++ by exact equality of every intermediate stage '
+         'read through private access; the winding-number clause is validated, not proved: a Coq-verified sample checker decides it '
+         'exactly at the sample points of every generated case.  Known findings of the unchanged tree: clip.stale-ip2, clip.ip-off-side',
     technique='Coq proof over translated kernels and a faithful executable model + exact stage-by-stage model/implementation correspondence '
               '+ Coq-verified specification checker on the public API (SPEC+O)',
     category='proof')
@@ -337,10 +341,18 @@ def sample_points(rng, c, out, maxn):
         return sorted(res)
     cx, cy = cand(xs, 2 * l, 2 * rr), cand(ys, 2 * t, 2 * b)
     pts = set()
-    # structured: the band just inside and just outside every side, the centre
     inx = [x for x in cx if 2 * l < x < 2 * rr]
     iny = [y for y in cy if 2 * t < y < 2 * b]
-    want = maxn
+    # structured: the bands half a unit inside and half a unit outside every side (where an intersection point computed off its
+    # side shows), at up to k positions along the side
+    k = max(2, maxn // 12)
+    for xb in (2 * l - 1, 2 * l + 1, 2 * rr - 1, 2 * rr + 1):
+        for y in (iny if len(iny) <= k else [rng.choice(iny) for _ in range(k)]):
+            pts.add((xb, y))
+    for yb in (2 * t - 1, 2 * t + 1, 2 * b - 1, 2 * b + 1):
+        for x in (inx if len(inx) <= k else [rng.choice(inx) for _ in range(k)]):
+            pts.add((x, yb))
+    want = max(maxn, len(pts) + maxn // 3)
     tries = 0
     while len(pts) < want and tries < 4 * want:
         tries += 1
@@ -419,11 +431,17 @@ def parse_tagged(o):
     return ps, tags
 
 
-def evaluate(tools, cases, rng, npts, lattice=False, with_model=True):
+def evaluate(tools, cases, rng, npts, lattice=False, with_model=True, fixed_pts=None):
     """per case: dict(impl, model, out, v (verdict), fail [keys], mismatch)"""
-    cmds = [clipx_cmd(c) for c in cases]
-    a = tools.impl(cmds)
-    b = tools.model(cmds) if with_model else [None] * len(cmds)
+    if tools.api_only:
+        # the stage harness does not build against this tree (tie break): public API only, no stage-by-stage comparison
+        a = ['X 0 F ' + x[3:] if x.startswith('OK ') else x
+             for x in tools.impl(['CLIP %s 1 %d %s' % (C09.rect_str(c['rect']), len(c['path']), vf.fmt_path(c['path'])) for c in cases])]
+        b = [None] * len(cases)
+    else:
+        cmds = [clipx_cmd(c) for c in cases]
+        a = tools.impl(cmds)
+        b = tools.model(cmds) if with_model else [None] * len(cmds)
     if len(cases) > 1000:
         tools.ctx.log('implementation and model stages done (%d cases)' % len(cases))
     outs = [parse_final(x) for x in a]
@@ -431,8 +449,12 @@ def evaluate(tools, cases, rng, npts, lattice=False, with_model=True):
     lp = lattice_points() if lattice else None
     ptsl = {}
     for i in idx:
-        ptsl[i] = lp if lattice and cases[i]['style'].startswith('lattice') and not cases[i]['style'].endswith('*') \
-            else sample_points(rng, cases[i], outs[i], npts)
+        if fixed_pts is not None and fixed_pts[i]:
+            ptsl[i] = [tuple(q) for q in fixed_pts[i]]
+        elif lattice and cases[i]['style'].startswith('lattice') and not cases[i]['style'].endswith('*'):
+            ptsl[i] = lp
+        else:
+            ptsl[i] = sample_points(rng, cases[i], outs[i], npts)
     vs = tools.model([chk_cmd(cases[i], outs[i], ptsl[i]) for i in idx])
     if len(cases) > 1000:
         tools.ctx.log('specification checker done')
@@ -518,7 +540,7 @@ def record(ctx, tools, case, d, rng):
             extra = (' (clauses %s; the output is exactly the model\'s with a vertex that ExecuteInternal adds as ip2 although the second '
                      'GetIntersection call of a pass-through returned false -- its result is ignored)' % ','.join(e.get('clauses', [])))
         ctx.violation(key, 'RectClip violates "%s"%s: %s' % (key, extra, describe(small, e)),
-                      replay=dict(kind='clip', rect=small['rect'], path=small['path'], key=key, pts=e.get('pts') if e.get('pts') and len(e['pts']) <= 80 else None,
+                      replay=dict(kind='clip', rect=small['rect'], path=small['path'], key=key, pts=e.get('pts') if e.get('pts') and len(e['pts']) <= 160 else None,
                                   original=dict(rect=case['rect'], path=case['path'])))
 
 
@@ -653,6 +675,7 @@ def run(ctx):
         'theorems about GetLocation/HeadingClockwise/GetAdjacentLocation/AreOpposites/GetSegmentIntersection are over the definitions translated from clipper.rectclip.cpp by cpp2v on this run; the structural theorems are about the hand model coq/model/RectClip.v, tied to the C++ by exact equality of every stage on every generated case (not by a semantics of C++)',
         'int64 arithmetic modelled in unbounded Z (no overflow for |coords| <= 2^61); binary64 via Coq primitive floats, harness built with -ffp-contract=off; non CLIPPER2_HI_PRECISION build',
         'the winding-number clause is validated, not proved: the verified checker decides it exactly at the sample points handed to it (soundness: C08_sample_check_sound); it is not lifted to all points of the plane',
+        'C08_isect_on_rect and C08_isect_on_rect_cases (binary64 reasoning with Flocq, the former through the C18 accuracy theorem proofs/Core_isect_acc.v) depend on the Coq standard library axioms of the real numbers (ClassicalDedekindReals.sig_forall_dec, sig_not_dec, Classical_Prop.classic, FunctionalExtensionality.functional_extensionality_dep) and on FloatAxioms (the specification of the primitive binary64 operations); the primitive float/int63 operations themselves are listed by Print Assumptions for every theorem that computes with floats; all other theorems are closed under the global context',
         '"new vertex within one unit of the boundary" is read as Euclidean distance <= 1; "inside the rectangle within one grid unit" as every coordinate within [side - 1, side + 1]; "farther than 2 units" as strictly greater; rectangles are non-empty (left < right, top < bottom), polygons have >= 3 vertices',
     ]
     ctx.cov['rule'] = ('closed lattice paths on the 5x5 lattice (unit 8) against the central 2x2-cell rectangle: ALL 25^3 paths of 3 vertices (every starting point) in the quick tier, all of 3 and 4 vertices '
@@ -673,7 +696,7 @@ def run(ctx):
         ctx.log('break (proof %s, harness %s, leaf %d): searching with a larger budget' % (broken, bool(tools.tie_error), len(lm)))
         mism = explore(ctx, tools, 100000, [3], [(4, 80000), (5, 30000), (6, 30000)], 3000, 40)
     else:
-        mism = explore(ctx, tools, 600000, [3, 4], [(5, 500000), (6, 500000)], 30000, 64)
+        mism = explore(ctx, tools, 400000, [3, 4], [(5, 250000), (6, 250000)], 30000, 64)
     found = bool(ctx.violations) or bool(ctx.known_hits)
     if lm:
         l, x, y = lm[0]
@@ -702,13 +725,7 @@ def replay(ctx, path):
     tools = Tools(ctx, want_asan=False)
     if rp.get('kind') == 'clip':
         c = dict(rect=rp['rect'], path=rp['path'], style='replay', mag=0)
-        d = evaluate(tools, [c], ctx.rng.fork(3), 48)[0]
-        if rp.get('pts') and d['out'] is not None:
-            v = parse_verdict(tools.model([chk_cmd(c, d['out'], [tuple(p) for p in rp['pts']])])[0])
-            for k in v['keys']:
-                if k not in d['fail'] and d['fail'] != ['clip.stale-ip2']:
-                    d['fail'].append(k)
-                    d['v'] = v
+        d = evaluate(tools, [c], ctx.rng.fork(3), 48, fixed_pts=[rp.get('pts')])[0]
         ctx.log('impl  %s' % d['impl'][:1500])
         ctx.log('model %s' % (d['model'] or '')[:1500])
         ctx.count('evaluations', 1)
